@@ -12,7 +12,7 @@ CHECKS = {
                 "{valid, invalid witness, hint error at invocation k, entropy error / short read at draw k}); distinct_nontrivial counts distinct case descriptors",
         "quick": {"runs": 640, "budget_s": 220, "selftest_runs": 5, "params": {"slots": 32}},
         "thorough": {"runs": 30000, "budget_s": 2700, "race_runs": 1500, "race_budget_s": 1500, "selftest_runs": 8, "params": {"slots": 64}},
-        "expect_probes": ["scenario:valid", "scenario:invalid-witness", "hint_error", "entropy-error", "entropy-short-read", "proof_bytes_equal_default_schedule", "opts:statzk", "opts:mismatch-htf"],
+        "expect_probes": ["scenario:valid", "scenario:invalid-witness", "hint_error", "entropy-error", "entropy-short-read", "proof_bytes_equal_default_schedule", "opts:statzk", "opts:mismatch-htf", "opts:htf=sha512", "opts:htf=sha224"],
         "components": {"real": REAL, "stub": STUB_SCHED + ["hint function under fault", "entropy source under fault (error / short read at draw k)"]},
         "assumptions": ["completeness is explored for the circuit shapes the generator reaches (straight-line programs, 0-2 commitments, lookups, range checks, hints, wide levels)", "bounded liveness is measured in scheduling steps against the fault-free run of the same configuration (3x + 5000)"],
     },
@@ -171,7 +171,7 @@ CHECKS = {
         "rule": "one evaluation = one API call (Solve/Prove/Verify/IsSolved) compared with the solo model; a case = (backend, curve, generated circuit, "
                 "per-client call sequences, shared option slice, background compile/register); distinct_nontrivial counts distinct case descriptors "
                 "with >=2 concurrent clients",
-        "quick": {"runs": 480, "budget_s": 200, "selftest_runs": 5, "params": {"slots": 40}},
+        "quick": {"runs": 400, "budget_s": 150, "race_runs": 64, "race_budget_s": 80, "selftest_runs": 5, "params": {"slots": 40}},
         "thorough": {"runs": 20000, "budget_s": 2400, "race_runs": 1600, "race_budget_s": 1500, "selftest_runs": 8, "params": {"slots": 64}},
         "expect_probes": ["system_with_lookup", "prove_with_commitment", "result_bytes_compared"],
         "components": {"real": REAL, "stub": ["entropy source (keyed PRF behind crypto/rand.Reader)", "goroutine scheduler (seeded token scheduler; real goroutines used as coroutines)", "map iteration order (canonical order + tape permutation)"]},
